@@ -93,7 +93,7 @@ def sub_recipe(draw, max_budget=60, opts=None, min_level=4):
         for k in range(g.pick([0, 0, 1, 1, 2, 3])):
             t = g.pick(["U", "U", "B"])
             kind = "val"
-            if i not in cyc and opts.get("refs", True) and g.chance(3):
+            if i not in cyc and opts.get("refs", True) and g.chance(4 if shape == "dag" else 3):
                 kind = "ref"
             params.append(["p%d" % k, t, kind])
         ret = g.pick(["U", "U", "B", "N"])
